@@ -31,6 +31,7 @@ MERGEABLE_KINDS = ('AddField', 'DeleteField', 'ChangeField', 'ChangeMeta')
 SKIP_TABLES = O.BOOKKEEPING_TABLES + ('django_content_type',)
 NARROW_KINDS = ('AddField', 'DeleteField', 'RenameField', 'ChangeField',
                 'ChangeMeta')
+REUSE_KINDS = ('AddField', 'DeleteField', 'RenameField', 'ChangeField')
 
 
 def narrow_start():
@@ -207,6 +208,31 @@ def abstract_path(path):
         else:
             out.append(k)
     return ' ; '.join(out)
+
+
+def has_name_reuse(path):
+    """Does a step introduce a field name (AddField, RenameField target)
+    that an earlier, different field of the model used on this path?"""
+    used = {}
+    for _l, mj in path:
+        k = mj[0]
+        if k in ('DeleteField', 'ChangeField'):
+            used.setdefault(mj[1], set()).add(mj[2])
+        elif k == 'AddField':
+            if mj[2] in used.get(mj[1], set()):
+                return True
+            used.setdefault(mj[1], set()).add(mj[2])
+        elif k == 'RenameField':
+            used.setdefault(mj[1], set()).add(mj[2])
+            if mj[3] in used.get(mj[1], set()):
+                return True
+            used[mj[1]].add(mj[3])
+    return False
+
+
+def core_text(core):
+    return abstract_path(core) + ('|name-reuse' if has_name_reuse(core)
+                                  else '')
 
 
 def is_mergeable_step(mj):
@@ -565,7 +591,7 @@ class PathRunner(object):
                     'second-processing' if way == 'W5' else
                     'evolver' if way == 'W3' else 'split-evolutions')
                 self.add(self.viol3, 'C03|%s|%s%s' % (
-                    d, abstract_path(core), tag), core,
+                    d, core_text(core), tag), core,
                     dict(ev['detail'], way=way, found_on=len(path)))
             if ev['altered'] and not altered_reported:
                 altered_reported = True
@@ -573,7 +599,7 @@ class PathRunner(object):
                 core = self.minimise(path, self.way_predicate(
                     way, 'definitions-altered'))
                 self.add(self.viol3, 'C03|definitions-altered|%s'
-                         % abstract_path(core), core,
+                         % core_text(core), core,
                          {'before': ev['altered'][0],
                           'after': ev['altered'][1], 'way': way})
         if violating:
@@ -636,8 +662,8 @@ class PathRunner(object):
                         {'start': self.start, 'steps': path2})
                 self.run_ways(path2, spec2, w1_obs, rebuilds2,
                               idents_view(idents2))
-                deleted2 = deleted + ([step[1][2]] if step[1][0] ==
-                                      'DeleteField' else [])
+                deleted2 = deleted + ([step[1][2]] if step[1][0] in
+                                      ('DeleteField', 'RenameField') else [])
                 rec(img2, sig2, spec2, path2, rebuilds2, idents2, deleted2)
         rec(self.base_image, self.base_sig, self.start, [], [],
             initial_idents(self.start), [])
@@ -672,7 +698,13 @@ def tasks_for(tier):
               ('W2', 'W5', 'W3'))
         shard('three-field-d2', three_field_start(), 'R2', 2, 'full',
               NARROW_KINDS, ('W2', 'W3'))
+        # name re-use needs four steps (change, rename away, add again,
+        # change): tiny alphabet, deeper
+        shard('reuse-d4', narrow_start(), 'R2', 4, 'tiny', REUSE_KINDS,
+              ('W2', 'W3'))
     else:
+        shard('reuse-d5', narrow_start(), 'R2', 5, 'tiny', REUSE_KINDS,
+              ('W2', 'W3'))
         shard('narrow-d4', narrow_start(), 'R2', 4, 'lite', NARROW_KINDS,
               ('W2', 'W5', 'W3'))
         shard('narrow-barrier-d3', narrow_start(), 'R2', 3, 'lite',
